@@ -22,3 +22,4 @@ f=pkg/cdi/container-edits.go
 # must pass
 ./mkpatch.sh C03-access-var-renamed $f 's.replace("\t\t\taccess := d.Permissions\n\t\t\tif access == \"\" {\n\t\t\t\taccess = \"rwm\"\n\t\t\t}\n\t\t\tspecgen.AddLinuxResourcesDevice(true, dev.Type, &dev.Major, &dev.Minor, access)","\t\t\tperm := \"rwm\"\n\t\t\tif d.Permissions != \"\" {\n\t\t\t\tperm = d.Permissions\n\t\t\t}\n\t\t\tspecgen.AddLinuxResourcesDevice(true, dev.Type, &dev.Major, &dev.Minor, perm)")' benign
 ./mkpatch.sh C03-hook-switch-order $f 's.replace("\t\tcase PrestartHook:\n\t\t\tspecgen.AddPreStartHook(ociHook)\n\t\tcase PoststartHook:\n\t\t\tspecgen.AddPostStartHook(ociHook)\n","\t\tcase PoststartHook:\n\t\t\tspecgen.AddPostStartHook(ociHook)\n\t\tcase PrestartHook:\n\t\t\tspecgen.AddPreStartHook(ociHook)\n")' benign
+./mkpatch.sh C03-direct-write-process $f 's.replace("\tspecgen := ocigen.NewFromSpec(spec)\n","\tspecgen := ocigen.NewFromSpec(spec)\n\tif spec.Process != nil {\n\t\tspec.Process.NoNewPrivileges = false\n\t}\n")'
